@@ -23,7 +23,7 @@ from .. import known
 ID = 'C20'
 LEVEL = 'exploration'
 RULE = (
-    'Hypothesis, field level (~97% of cases): REAL*4 fields ny 1-8 x nx '
+    'Hypothesis, field level (~94% of cases): REAL*4 fields ny 1-8 x nx '
     '2-16 (|x| <= 1e30, largest neighbour difference 0 or >= 1e-30) from '
     'families random (k/1000 x 10^e, e -27..30), offset (large base + '
     'small variation), constant, integer multiples of 2^k, maxdiff (largest '
@@ -41,13 +41,16 @@ RULE = (
     '(the weaker of "one step" and "twice the recorded precision"; float64 '
     'compare of REAL*4 values); first element equal (-0.0 == 0.0).  An '
     'enumeration of the carry construction (k -3..3 x f x signs x D variant '
-    'x row/column) is replayed in every run.  File level (~3%): lat-lon ARL files (GRIDX 0) nx, ny '
-    '17-24, 1-3 times (day/year roll-over), 2-4 levels (sigma / pressure / '
+    'x row/column) is replayed in every run.  File level (~6%): lat-lon ARL files (GRIDX 0) nx, ny '
+    '17-24, 1-4 times (gaps 1..744 h: sub-daily, one day, several days, '
+    'month/year ends), 2-4 levels (sigma / pressure / '
     'height text), 1-3 surface and 1-3 upper variables (upper levels may '
     'carry fewer variables), fields base + amp * '
     'pattern, written by the struct-only reference encoder; arlpackedbit('
     'file): data variable list = surface + upper keys, z = level heights, '
-    'SFCVGLVL, times (yy mm dd hh of every index label), shapes, every '
+    'SFCVGLVL, times (yy mm dd hh of every index label; the time variable '
+    '= exact hours since the first record with that reference instant; '
+    'getTimes() = the encoded instants), shapes, every '
     'field within 2^(NEXP-7) of the reference REAL*4 decode of the file '
     'and of the encoded values; writearlpackedbit(file read) judged by the '
     'reference decoder.  Non-trivial: largest difference within 2 ulp of a '
@@ -231,12 +234,14 @@ LEVELSETS = [['1.0000', '0.9975', '0.9900', '0.9500'],
              ['1.0000', '.99750', '.50000', '.00100'],
              ['    0.', ' 1000.', '  925.', '  500.']]
 TIMES0 = [[99, 12, 31, 21], [0, 2, 28, 18], [4, 2, 29, 0], [20, 6, 15, 12],
-          [95, 10, 16, 23], [12, 12, 31, 22]]
+          [95, 10, 16, 23], [12, 12, 31, 22], [3, 1, 31, 23], [96, 2, 28, 0],
+          [21, 11, 30, 6], [99, 12, 1, 0]]
+GAPS = [1, 3, 6, 12, 24, 24, 27, 48, 72, 240, 744]
 
 
 @st.composite
 def file_case(draw):
-    nt = draw(st.sampled_from([1, 2, 3]))
+    nt = draw(st.sampled_from([1, 2, 2, 3, 3, 4]))
     # upper levels may carry fewer variables (as GDAS/NAM files do): number
     # of trailing upper keys dropped per upper level, none on the first
     ragged = draw(st.sampled_from([False, False, True]))
@@ -258,13 +263,17 @@ def file_case(draw):
     while nx * ny < 108 + lenh:
         ny += 1
     t0 = draw(st.sampled_from(TIMES0))
-    dth = draw(st.sampled_from([1, 3, 6]))
     ff = draw(st.sampled_from([0, 0, 3, 12]))
     base = datetime.datetime(1900 + t0[0] if t0[0] >= 69 else 2000 + t0[0],
                              t0[1], t0[2], t0[3])
+    # gaps between consecutive index records: sub-daily, exactly one day,
+    # more than a day, several days, a month
+    gaps = [draw(st.sampled_from(GAPS)) for t in range(nt - 1)]
     times = []
+    d = base
     for t in range(nt):
-        d = base + datetime.timedelta(hours=t * dth)
+        if t:
+            d = d + datetime.timedelta(hours=gaps[t - 1])
         times.append([d.year % 100, d.month, d.day, d.hour, ff])
     fields = []
     nrec = nt * (nsfc + sum(nupp - d for d in drop))
@@ -287,7 +296,7 @@ def strategy(tier):
     fld = st.one_of(field_random(), field_random(), field_offset(),
                     field_constant(), field_ints(), field_maxdiff(),
                     field_maxdiff(), field_carry(), field_carry())
-    return st.integers(0, 31).flatmap(
+    return st.sampled_from(list(range(16))).flatmap(
         lambda n: file_case() if n == 0 else fld)
 
 
@@ -507,6 +516,18 @@ def check_file(spec):
         r.label('multi-time-multi-level')
     if any(spec.get('drop') or []):
         r.label('ragged-levels')
+    inst = [datetime.datetime(1900 + t[0] if t[0] >= 69 else 2000 + t[0],
+                              t[1], t[2], t[3]) for t in spec['times']]
+    span = (inst[-1] - inst[0]).total_seconds() / 3600.0
+    if nt > 1:
+        r.label('span<24h' if span < 24 else 'span=24h' if span == 24 else
+                'span>24h')
+        if span >= 72:
+            r.label('span>=3d')
+        if inst[-1].month != inst[0].month:
+            r.label('month-rollover')
+        if inst[-1].year != inst[0].year:
+            r.label('year-rollover')
     t0 = spec['times'][0]
     if nt > 1 and spec['times'][-1][:3] != t0[:3]:
         r.label('day-rollover')
@@ -552,6 +573,26 @@ def check_file(spec):
             gt = [(d.year % 100, d.month, d.day, d.hour) for d in tm]
             if gt != wt:
                 r.fail('reader-times', 'times %r, index labels %r' % (gt, wt))
+        # every decoded time value, exactly: hours since the first index
+        # record (two-digit years read the POSIX way, 69-99 -> 19xx)
+        ok, hv = guard(r, 'reader-time-values', lambda: (
+            np.asarray(f.variables['time'][...]).astype('f8').tolist(),
+            str(f.variables['time'].units)))
+        if ok:
+            whours = [(d - inst[0]).total_seconds() / 3600.0 for d in inst]
+            wunits = inst[0].strftime('hours since %Y-%m-%d %H:%M:%S')
+            if hv[0] != whours or hv[1].strip() != wunits:
+                r.fail('reader-time-values', 'time = %r %r, encoded instants '
+                       'are %r hours after %s' % (hv[0], hv[1], whours,
+                                                  wunits))
+        ok, gt2 = guard(r, 'reader-gettimes', lambda: list(f.getTimes()))
+        if ok:
+            got = [(d.year, d.month, d.day, d.hour, d.minute, d.second)
+                   for d in gt2]
+            wantt = [(d.year, d.month, d.day, d.hour, 0, 0) for d in inst]
+            if got != wantt:
+                r.fail('reader-gettimes', 'getTimes() %r, encoded instants '
+                       '%r' % (got, wantt))
         for key in want:
             sfc = key in spec['sfc']
             ok, arr = guard(r, 'reader-getvar',
